@@ -351,11 +351,11 @@ Section Crypto.
     (c =? 32) || (c =? 9) || (c =? 10) || (c =? 11) || (c =? 12) || (c =? 13).
   Fixpoint trim_left (s : bytes) : bytes :=
     match s with c :: r => if is_space c then trim_left r else s | [] => [] end.
-  Definition trim_space (s : bytes) : bytes := rev (trim_left (rev (trim_left s))).
+  Definition trim_space (s : bytes) : bytes := rev_append (trim_left (rev_append (trim_left s) [])) [].
   Fixpoint split_comma (s : bytes) (cur : bytes) : list bytes :=
     match s with
-    | [] => [rev cur]
-    | c :: r => if c =? 44 then rev cur :: split_comma r [] else split_comma r (c :: cur)
+    | [] => [rev_append cur []]
+    | c :: r => if c =? 44 then rev_append cur [] :: split_comma r [] else split_comma r (c :: cur)
     end.
   Definition directive_name (s : bytes) : bytes :=
     let t := trim_space s in
